@@ -132,6 +132,9 @@ func (cp *Processor) verifySessionV2(tok sessionv2.Token, v signatureVerificatio
 			return errWrongCID
 		}
 	}
+	if !v.idContainerSet && !tok.AssertVerb(v.verbV2, cid.ID{}) {
+		return errWrongSessionVerb
+	}
 
 	if tok.OriginalIssuer() != v.ownerContainer {
 		return errors.New("owner differs with original token issuer")
